@@ -70,6 +70,7 @@ func TestVerifInput(t *testing.T) {
 			Mode  string `json:"mode"`
 			Size  int    `json:"size"`
 			Lines int    `json:"lines"`
+			Brk   *int   `json:"bracket"` /* paste: this line arrives inside bracketed-paste markers (ESC[200~ ... ESC[201~) */
 		}
 		if err := json.Unmarshal(sc.Bytes(), &c); nil != err {
 			t.Fatal(err)
@@ -129,6 +130,10 @@ func TestVerifInput(t *testing.T) {
 			go func() { s.Do(ctx); close(done) }()
 			go func() {
 				for k := 0; k < c.Lines; k++ {
+					if nil != c.Brk && *c.Brk == k {
+						fmt.Fprintf(pw, "\x1b[200~L%06d\r\x1b[201~", k)
+						continue
+					}
 					fmt.Fprintf(pw, "L%06d\r", k)
 				}
 			}()
@@ -144,7 +149,7 @@ func TestVerifInput(t *testing.T) {
 						res["got"] = l
 					}
 					got++
-				case <-time.After(3 * time.Second):
+				case <-time.After(map[bool]time.Duration{true: 3 * time.Second, false: 800 * time.Millisecond}[nil == c.Brk]):
 					break READ
 				}
 			}
